@@ -68,6 +68,10 @@ func init() {
 		"grammar.newParser", "grammar.parser.setOptions", "grammar.MaxExpressions", "grammar.MaxExpressions$1", "grammar.Recover$1", "grammar.Entrypoint$1", "grammar.AllowInvalidUTF8$1", "grammar.GlobalStore$1",
 		"bexpr.CreateEvaluator", "bexpr.WithMaxExpressions", "bexpr.WithMaxExpressions$1", "bexpr.getOpts"},
 		Extras: []string{"frame:budget-fields"}, Trusted: trust("A-ARITH-1", "A-ENGINE", "A-STACK")})
+	add(&propSpec{ID: "C19", Level: "proof", Funcs: []string{"grammar.UnaryExpression.ExpressionDump", "grammar.BinaryExpression.ExpressionDump", "grammar.MatchExpression.ExpressionDump",
+		"grammar.CollectionExpression.ExpressionDump", "grammar.Selector.String", "grammar.UnaryOperator.String", "grammar.BinaryOperator.String", "grammar.MatchOperator.String",
+		"grammar.CollectionNameBinding.String"}, Extras: []string{"frame:write:grammar.UnaryExpression.ExpressionDump,grammar.BinaryExpression.ExpressionDump,grammar.MatchExpression.ExpressionDump,grammar.CollectionExpression.ExpressionDump"},
+		Trusted: trust("A-FMT", "A-STRINGS", "A-ARITH-2", "A-STACK", "A-ENGINE")})
 	add(&propSpec{ID: "C20", Level: "translation_validation", Extras: []string{"table:peg"}, NoBattery: true,
 		Trusted: []string{"A-GEN"}})
 	add(&propSpec{ID: "C08", Level: "proof", Funcs: []string{"bexpr.getValue", "bexpr.evaluateNotPresent", "bexpr.doMatchIsEmpty", "bexpr.doMatchEqual", "bexpr.doMatchIn", "bexpr.doMatchMatches",
